@@ -141,6 +141,21 @@ class BoundBuiltin(V):
 
 
 @dataclass(frozen=True)
+class PartialV(V):
+    """functools.partial / operator.itemgetter / attrgetter / methodcaller: a callable with frozen arguments."""
+    kind: str       # "partial" | "itemgetter" | "attrgetter" | "methodcaller"
+    func: object
+    args: tuple
+    kwargs: tuple   # sorted (name, value) pairs
+
+
+@dataclass(frozen=True)
+class MemoV(V):
+    """functools.lru_cache / functools.cache wrapper around a callable: results are reused per argument tuple."""
+    func: object
+
+
+@dataclass(frozen=True)
 class SuperV(V):
     after: object   # ClassInfo: lookup starts after this class in the MRO
     selfv: object
